@@ -3,6 +3,7 @@ package main
 
 import (
 	"context"
+	"errors"
 	"fmt"
 	"io"
 	"log"
@@ -39,12 +40,13 @@ type caseRec struct {
 	Dups      map[int][]int  `json:"redeliveries,omitempty"`
 	Lanes     int            `json:"concurrent_deliverers,omitempty"`
 	Twice     map[int]bool   `json:"simultaneous_duplicates,omitempty"`
+	Faults    map[int]string `json:"kv_faults_at_position,omitempty"`
 	Diffs     []string       `json:"diffs,omitempty"`
 }
 
 func main() {
 	ev.Main("C06", "exploration",
-		"generated blob sets (as C05, plus directed ones: delete/undelete chains in every arrival order, tied claim dates, oversized indexed values, node types, image/EXIF/media files) delivered in seeded orders with mid-history re-opens of the live index, re-deliveries and concurrent deliverers; at every sampled prefix (all prefixes for short histories), after the asynchronous reindexers quiesce, a grid of lookups (blob meta, deletion status, claims, attribute values at a grid of times/signers, modtimes, file/image/media/dir info, paths, edges, recent/ordered permanodes, per-type enumerations, attr search, search-handler queries) is asked of the live index(+corpus) and of a fresh index(+corpus) opened over a copy of the same rows (and, for file-backed KVs, over the closed and re-opened file); distinct = (world, order, prefix, mode); non-trivial = prefix contains at least one claim",
+		"generated blob sets (as C05, plus directed ones: delete/undelete chains in every arrival order, several delete claims on ONE target with a subset of them undone in every arrival order, tied claim dates, oversized indexed values, node types, image/EXIF/media files) delivered in seeded orders with mid-history re-opens of the live index, re-deliveries, concurrent deliverers, and receives that meet a KV failure (sqlite: a statement of the batch fails, or another connection holds the write lock; other kinds: CommitBatch fails without effect; a receive that reported the error is repeated once the fault is gone, one that was acknowledged is not); at every sampled prefix (all prefixes for short histories), after the asynchronous reindexers quiesce, a grid of lookups (blob meta, deletion status, claims, attribute values at a grid of times/signers, modtimes, file/image/media/dir info, paths, edges, recent/ordered permanodes, per-type enumerations, attr search, search-handler queries) is asked of the live index(+corpus) and of a fresh index(+corpus) opened over a copy of the same rows (and, for file-backed KVs, over the closed and re-opened file); distinct = (world, order, prefix, mode); non-trivial = prefix contains at least one claim",
 		run)
 }
 
@@ -74,6 +76,8 @@ type job struct {
 	search bool
 	// light: time-ordering probes at the prefixes that get no full probe
 	light bool
+	// faults[p] (lanes <= 1): the receive of position p meets that KV fault (round4.go)
+	faults map[int]string
 }
 
 // kvHandle is a sorted.KeyValue that can be closed and re-opened (file-backed kinds).
@@ -171,7 +175,10 @@ func (j *job) modeNotes(r *ev.Run) {
 	if j.lanes > 1 {
 		r.Note("history_modes", "concurrent-deliverers")
 	}
-	if j.restartAt == 0 && len(j.dups) == 0 && j.lanes <= 1 {
+	if len(j.faults) > 0 {
+		r.Note("history_modes", "kv-fault-during-a-receive")
+	}
+	if j.restartAt == 0 && len(j.dups) == 0 && j.lanes <= 1 && len(j.faults) == 0 {
 		r.Note("history_modes", "plain")
 	}
 }
@@ -191,11 +198,20 @@ func runJob(r *ev.Run, j job, root string, sampleMu *sync.Mutex, sampled *int) {
 	if j.jitter != 0 {
 		src = &jitterSrc{Storage: ms, yield: inject.Jitter(j.jitter)}
 	}
-	live, err := hw.NewIdx(h.kv, src, j.corpus)
+	var fc *faultCtl
+	if len(j.faults) > 0 {
+		if fc, err = openFaultCtl(h); err != nil {
+			r.Inconclusive("kv-fault control connection: " + err.Error())
+			return
+		}
+		defer fc.close()
+	}
+	live, err := hw.NewIdx(fc.wrap(h.kv), src, j.corpus)
 	if err != nil {
 		r.Inconclusive("index.New: " + err.Error())
 		return
 	}
+	faulted, ackedUnderFault, failedNotRetried := false, false, false
 	opts := hw.WorldProbeOpts(j.w)
 	tied := tiedPermanodes(j.w)
 	delivered := map[blob.Ref]int{}
@@ -207,7 +223,7 @@ func runJob(r *ev.Run, j job, root string, sampleMu *sync.Mutex, sampled *int) {
 	}
 	rec := func(prefix int, diffs []string) caseRec {
 		c := caseRec{CaseID: j.wid, Family: j.family, World: j.w.Describe(), Order: j.order, Prefix: prefix, Corpus: j.corpus, KV: j.kv, Prefill: j.prefill,
-			RestartAt: j.restartAt, Dups: j.dups, Lanes: j.lanes, Twice: j.twice, Diffs: diffs}
+			RestartAt: j.restartAt, Dups: j.dups, Lanes: j.lanes, Twice: j.twice, Faults: j.faults, Diffs: diffs}
 		for i, bb := range j.w.Blobs {
 			c.Blobs = append(c.Blobs, fmt.Sprintf("%d:%s:%s", i, j.w.Kind[bb.Ref], bb.Ref))
 		}
@@ -223,7 +239,15 @@ func runJob(r *ev.Run, j job, root string, sampleMu *sync.Mutex, sampled *int) {
 		for _, d := range diffs {
 			m := method(d)
 			sig := what + "/" + mode + "/" + m
-			if delBeforeTarget {
+			if faulted {
+				// a class of its own: a receive of this history met a KV failure
+				sig = what + "/after-kv-fault/" + mode + "/" + m
+				if ackedUnderFault {
+					sig = what + "/after-receive-acknowledged-under-kv-fault/" + mode + "/" + m
+				} else if failedNotRetried {
+					sig = what + "/after-receive-failed-under-kv-fault/" + mode + "/" + m
+				}
+			} else if delBeforeTarget {
 				sig += "/delete-before-target"
 			}
 			// tied claim dates on one permanode: a class of its own, but only for a question that
@@ -245,9 +269,44 @@ func runJob(r *ev.Run, j job, root string, sampleMu *sync.Mutex, sampled *int) {
 			r.Violation(sig, fmt.Sprintf("world %s, after %d of %d arrivals: %s", j.wid, prefix, len(j.order), clip(d, 600)), rc)
 		}
 	}
+	// betweenFailureAndRetry compares live and reloaded at the moment a receive has reported a KV
+	// failure and has not been repeated yet (position p is not delivered as far as the rows go).
+	betweenFailureAndRetry := func(x *hw.Idx, p int) bool {
+		cp, err := hw.CopyKV(h.kv)
+		if err != nil {
+			return true
+		}
+		fresh, err := hw.NewIdx(cp, ms, j.corpus)
+		if err != nil {
+			r.Violation("reload-fails/"+mode, fmt.Sprintf("world %s: after the failed receive of position %d: opening a fresh index over the persisted rows failed: %v", j.wid, p, err), rec(p, nil))
+			return false
+		}
+		a := hw.Probe(x.Index, x.Corpus, opts)
+		b2 := hw.Probe(fresh.Index, fresh.Corpus, opts)
+		r.Eval(len(a))
+		r.Count("comparisons_between_failed_receive_and_retry", 1)
+		if diffs := hw.DiffAnswers(a, b2); len(diffs) > 0 {
+			failedNotRetried = true
+			report("live-vs-reload", p, diffs)
+			return false
+		}
+		return true
+	}
 	deliverPos := func(x *hw.Idx, p int) error {
 		b := j.w.Blobs[j.order[p]]
-		if err := x.Deliver(b); err != nil {
+		if kind := j.faults[p]; kind != "" && fc != nil {
+			faulted = true
+			acked, err := deliverUnderFault(r, &j, x, h, fc, p, kind, func() bool { return betweenFailureAndRetry(x, p) })
+			if err == errStop {
+				return err
+			}
+			if err != nil {
+				return fmt.Errorf("deliver #%d: %w", p, err)
+			}
+			if acked {
+				ackedUnderFault = true
+			}
+		} else if err := x.Deliver(b); err != nil {
 			return fmt.Errorf("deliver #%d %v (%s): %w", p, b.Ref, j.w.Kind[b.Ref], err)
 		}
 		for _, q := range j.dups[p] {
@@ -276,7 +335,7 @@ func runJob(r *ev.Run, j job, root string, sampleMu *sync.Mutex, sampled *int) {
 				r.Inconclusive(fmt.Sprintf("world %s: re-opening the %s KV: %v", j.wid, j.kv, err))
 				return
 			}
-			nl, err := hw.NewIdx(h.kv, src, j.corpus)
+			nl, err := hw.NewIdx(fc.wrap(h.kv), src, j.corpus)
 			if err != nil {
 				r.Violation("reload-fails/"+mode, fmt.Sprintf("world %s before position %d: re-opening the index over its own rows failed: %v", j.wid, batch[0], err), rec(batch[0], nil))
 				return
@@ -327,6 +386,9 @@ func runJob(r *ev.Run, j job, root string, sampleMu *sync.Mutex, sampled *int) {
 				}
 			}
 			r.Count("concurrent_batches", 1)
+		}
+		if derr == errStop || errors.Is(derr, errStop) {
+			return // already reported
 		}
 		if derr != nil {
 			r.Violation("delivery-error/"+mode, fmt.Sprintf("world %s: %v", j.wid, derr), rec(pos, nil))
@@ -619,22 +681,31 @@ func run(r *ev.Run) {
 		}()
 	}
 	p := &planner{r: r, jobs: jobs, kinds: []string{"memory", "leveldb", "kv", "sqlite"}}
+	p.faultWorlds() // first: the sqlite histories are the slowest (fsync)
 	p.genericWorlds()
 	p.chainWorlds()
 	p.directedWorlds()
+	p.multiDeleteWorlds()
 	close(jobs)
 	wg.Wait()
 	r.Require("modes", "corpus", "nocorpus")
 	r.Require("moments", "with-pending-dependencies", "no-pending", "live-side-loaded-then-updated", "live-corpus-loaded-then-updated")
-	r.Require("history_modes", "plain", "mid-history-reopen", "re-delivery", "concurrent-deliverers")
+	r.Require("history_modes", "plain", "mid-history-reopen", "re-delivery", "concurrent-deliverers", "kv-fault-during-a-receive")
 	r.Require("kv_kinds", "memory", "leveldb", "kv", "sqlite")
 	r.Require("reopened_file_kinds", "leveldb", "kv", "sqlite")
-	r.Require("families", "generic", "delete-chain", "long-values", "tied-dates", "node-types", "media", "content-time")
+	r.Require("families", "generic", "delete-chain", "long-values", "tied-dates", "node-types", "media", "content-time", "multi-delete", "kv-fault")
 	r.Require("world_features", "delete-of-permanode", "delete-of-claim", "delete-of-delete", "directory", "nested-bytes",
 		"delete-chain-depth-3", "delete-chain-on-permanode", "delete-chain-on-claim", "long-indexed-value", "long-path-suffix",
 		"tied-claim-dates", "node-type", "media-jpg", "media-mp3", "media-png", "media-shared-wholeref")
 	r.Require("chain_orders", "exhaustive-depth3-permanode", "exhaustive-depth3-claim")
 	r.Require("oversized_rows", "kvfile-live-corpus")
+	r.Require("world_features", "multi-delete-2", "multi-delete-3", "multi-delete-on-permanode", "multi-delete-on-claim", "multi-delete-with-edges",
+		"multi-delete-undo-newest-only", "multi-delete-undo-oldest-only", "multi-delete-undo-middle-only", "multi-delete-undo-all", "multi-delete-undo-none",
+		"multi-delete-undo-all-but-oldest", "multi-delete-tied-dates")
+	r.Require("multi_delete_orders", "exhaustive-2-deleters-newest-undone-permanode", "exhaustive-2-deleters-oldest-undone-permanode", "exhaustive-2-deleters-newest-undone-claim")
+	r.Require("kv_fault_kinds", faultTrigMeta, faultTrigHave, faultTrigAny, faultTrigDel, faultLock, faultCommit)
+	r.Require("kv_fault_outcomes", "error-returned-then-retry-ok")
+	r.Require("kv_fault_victim_kinds", "claim", "delete", "permanode")
 }
 
 // genericWorlds: the C05 generator, seeded orders, all history modes, all KV kinds.
